@@ -371,7 +371,10 @@ impl UnitGroup {
     }
 
     pub fn validate_unit(self, unit: Option<Unit>, extra_unit: Option<Unit>) -> TemporalResult<()> {
-        // TODO: Determine proper handling of Auto.
+        // `auto` belongs to no unit group; it is only legal where the caller allows it explicitly.
+        if unit == Some(Unit::Auto) && extra_unit != Some(Unit::Auto) {
+            return Err(TemporalError::range().with_message("auto is not a valid unit here."));
+        }
         match self {
             UnitGroup::Date => match unit {
                 Some(unit) if !unit.is_time_unit() => Ok(()),
@@ -444,7 +447,7 @@ impl Unit {
             Hour => 24,
             Minute | Second => 60,
             Millisecond | Microsecond | Nanosecond => 1000,
-            Auto => unreachable!(),
+            Auto => return None,
         };
 
         Some(max)
